@@ -43,6 +43,13 @@ Theorem C17_old_refuted_commit :
   /\ r_closed r = false.
 Proof. exact old_refuted_commit. Qed.
 
+(* a source in which one operation's statement goes to the bare handle instead of the transaction: the
+   request reports failure and rolls back, but that statement's effect is durable - not all-or-nothing *)
+Theorem C17_bypass_refuted :
+  let r := handler (list nat) log_eff bypass_shape PreOk [mkTask 7 OpOk []; mkTask 8 (OpFail 404) []] true 500 [] in
+  r_status r = 404 /\ durable (r_db r) = [7%nat] /\ tx (r_db r) = TRolledBack.
+Proof. exact bypass_refuted. Qed.
+
 (* non-vacuity: the guards hold on a three-operation request whose second operation trips a
    condition with a client-chosen status, and the conclusion is the interesting one *)
 Example C17_nonvacuous :
